@@ -427,6 +427,87 @@ def programs(tier):
     return P
 
 
+def m04b(res):
+    """name normalisation kernel `escape::dash_to_camel` (data-*, model:, change:, worklet:, slot value names) by engine M: for every
+    string of <= 4 (ASCII or not) characters the result is the input with every '-' removed and the character after a run of dashes
+    upper-cased (ASCII only), everything else unchanged."""
+    from mirsym.mir import Module, MirUnsupported
+    from mirsym.core import Executor, Path, Ref, SeqV
+    from mirsym import contracts
+    mod = Module(common.mir_dump('tc'))
+    fn = [x for x in mod.index if x.split('::')[-1] == 'dash_to_camel' and mod.headers[x].startswith('fn ')]
+    if len(fn) != 1:
+        res.inconc('M04b: dash_to_camel not found')
+        return 0
+    up = lambda c: z3.If(z3.And(c >= 97, c <= 122), c - 32, c)
+    extra = [(r'char::methods::<impl char>::to_ascii_uppercase$', lambda exe, path, callee, args, dst_ty: [('ret', path, up(exe.deref_all(path, args[0])))])]
+    n = 0
+    bad = []
+    for L_ in (1, 2, 3, 4):
+        exe = Executor(mod, extra + contracts.TABLE, max_visits=L_ + 3)
+        cs = [z3.Int('n%d' % i) for i in range(L_)]
+        exe.base = [z3.And(c >= 1, c <= 0x10FFFF, z3.Or(c < 0xD800, c > 0xDFFF)) for c in cs]
+        p = Path()
+        p.store[('heap', 'in')] = SeqV(tuple(cs))
+        done = exe.run(fn[0], [Ref(('heap', 'in'))], p)
+        res.solver_time += exe.stats['solver_time']
+        for f in exe.findings:
+            res.inconc('M04b: execution finding %s in dash_to_camel' % f.kind)
+        import itertools
+        for q in done:
+            if q.status != 'returned':
+                continue
+            r = q.result
+            if not isinstance(r, SeqV):
+                raise MirUnsupported('dash_to_camel returns %r' % (r,))
+            # reference, one case per dash pattern
+            for pat in itertools.product((True, False), repeat=L_):
+                cond = [(c == 45) if d else (c != 45) for c, d in zip(cs, pat)]
+                want = []
+                flag = False
+                for c, d in zip(cs, pat):
+                    if d:
+                        flag = True
+                    elif flag:
+                        want.append(up(c))
+                        flag = False
+                    else:
+                        want.append(c)
+                diff = z3.BoolVal(True) if len(want) != len(r.items) else (z3.Or([a != b for a, b in zip(want, r.items)]) if want else z3.BoolVal(False))
+                ok, model = exe.check(exe.base + q.pc + cond + [diff], want_model=True)
+                n += 1
+                res.query('sat' if ok else 'unsat')
+                if ok:
+                    bad.append(''.join(chr(model.eval(c, model_completion=True).as_long()) for c in cs))
+        res.functions.append({'fn': 'escape::dash_to_camel', 'chars': L_, 'paths': len(done)})
+    if bad:
+        # replay through the real pipeline: a dataset attribute with that name
+        names = [b for b in bad if all(ch.isalnum() or ch in '-_.' for ch in b) and b[0].isalpha()][:6] or ['a-3d', 'x-2x', 'a-_b', 'k--v']
+        progs = ['<view data-%s="v"/>' % nm for nm in names]
+        comp = driver.compile_batch(progs, want=('gen_object', 'runtime'))
+        for nm, c in zip(names, comp):
+            if 'gen_object' not in c:
+                continue
+            want = ''
+            flag = False
+            for ch in nm:
+                if ch == '-':
+                    flag = True
+                elif flag:
+                    want += ch.upper() if 'a' <= ch <= 'z' else ch
+                    flag = False
+                else:
+                    want += ch
+            if ('"%s"' % want) not in c['gen_object']:
+                import re as _re
+                got = _re.findall(r'R\.d\(N,("[^"]*")', c['gen_object'])
+                res.violation({'engine': 'M', 'harness': 'M04b', 'class': 'dash_to_camel'},
+                              'attribute name data-%s is normalised to %s, expected "%s"' % (nm, got[:1], want), {'wxml': '<view data-%s="v"/>' % nm})
+                return n
+        res.inconc('M04b: dash_to_camel deviates in the model for %r but the generated code shows the expected names' % bad[:3])
+    return n
+
+
 def main(tier):
     res = Result('C04', 'translation_validation')
     res.engines = ['J (symbolic execution of the emitted JavaScript in creation mode + z3)']
@@ -473,6 +554,9 @@ def main(tier):
         res.coverage['disagreements_checked'] = res.coverage.get('disagreements_checked', 0) + 1
         res.violation({'engine': 'J', 'harness': 'creation-tree', 'class': cls},
                       'creation tree differs from the WXML model: %s | template %r (%d differences in this class)' % (d, p['wxml'][:400], len(items)), {'wxml': p['wxml'], 'diff': d})
+    nk = m04b(res)
+    res.coverage['kernel_obligations'] = nk
+    res.engines.append('M (dash_to_camel kernel from MIR)')
     res.coverage.update({'programs': len(progs), 'sites': nsites, 'disagreements_checked': res.coverage.get('disagreements_checked', 0),
                          'explanation': 'protocol-call tree of the real generated code vs the reference tree of the model: structure exactly, values by z3 for all data',
                          'rule_table': 'text: whitespace-only dropped, mixed = concatenation of pieces and display strings; single binding = raw value; wx:if = first truthy branch; '
